@@ -77,8 +77,19 @@ func (c *Cache[K, D]) Load(key K) (actual *Element[D]) {
 func (c *Cache[K, D]) CheckExpirations(now time.Time) {
 	c.Range(func(key K, value *Element[D]) bool {
 		if value.IsExpired(now) {
-			c.Delete(key)
-			value.onExpire(value.Data())
+			// Range releases the lock around this callback, so the entry may have been replaced by a
+			// fresh element in the meantime: remove it only if it is still the expired element.
+			removed := false
+			c.ReplaceWithFunc(key, func(oldValue *Element[D], oldLoaded bool) (*Element[D], bool) {
+				if oldLoaded && oldValue == value {
+					removed = true
+					return nil, true
+				}
+				return oldValue, !oldLoaded
+			})
+			if removed {
+				value.onExpire(value.Data())
+			}
 		}
 		return true
 	})
